@@ -110,6 +110,18 @@ fn gen_dir(f: &mut Fmt, parent: usize, name: &str, rng: &mut Rng, target_slots: 
         let (blk, off) = f.slot_loc(d, f.dirs[d].used + 2);
         let stale = f.raw_entry(&name11("STALE2.OLD"), 0x10, 3, 0);
         f.img.write_bytes(blk, off as usize, &stale);
+        // ... also in a later block and in the very last slot of the directory's extent
+        let cap = f.dir_capacity(d);
+        if f.dirs[d].used + 1 + 16 < cap {
+            let (blk, off) = f.slot_loc(d, f.dirs[d].used + 1 + 16);
+            let stale = f.raw_entry(&name11("STALE3.OLD"), 0x20, 0, 5);
+            f.img.write_bytes(blk, off as usize, &stale);
+        }
+        if f.dirs[d].used + 3 < cap - 1 {
+            let (blk, off) = f.slot_loc(d, cap - 1);
+            let stale = f.raw_entry(&name11("STALE4.OLD"), 0x10, 3, 0);
+            f.img.write_bytes(blk, off as usize, &stale);
+        }
     }
     d
 }
@@ -210,7 +222,27 @@ fn check_dir_inner(vm: &dyn Vm, vol: RawVolume, snap: &Snap, path: &str, loc: Di
                 bad |= lookup(Nm::Str(&txt), nm, rep)?;
             }
         }
+        // names of stale slots behind the end marker (same block, a later block, the last slot)
+        for txt in ["STALE.OLD", "STALE2.OLD", "STALE3.OLD", "STALE4.OLD"] {
+            let nm = name11(txt);
+            if !listed_names.contains(&nm) {
+                bad |= lookup(Nm::Str(txt), nm, rep)?;
+                if !bad {
+                    if let Ok(nd) = vm.open_dir(fl, d, Nm::Str(txt)) {
+                        let _ = vm.close_dir(Fl::Raw, nd);
+                        rep.violate(v("C06.opendir", "open_dir", "absent name", format!("{}: open_dir({:?}) succeeded although the listing has no such entry (a slot behind the end marker)", path, txt), case()));
+                        bad = true;
+                    }
+                }
+            }
+            if bad {
+                break;
+            }
+        }
         for k in 0..4 {
+            if bad {
+                break;
+            }
             let txt = format!("ABSENT{}.Q{}", k, k);
             let nm = name11(&txt);
             if !listed_names.contains(&nm) {
